@@ -98,3 +98,31 @@ pub fn shrink_step(case: &ProgCase, idx: usize) -> vcore::Step<ProgCase> {
 pub fn sample_of(case: &ProgCase) -> serde_json::Value {
     vcore::truncate_value(serde_json::json!({ "source": render(&case.prog, &case.plan).text }), 2500)
 }
+
+/// A stable class for an error message: quoted parts ('..' and "..") and digits removed, whitespace collapsed.
+pub fn message_class(msg: &str) -> String {
+    let mut out = String::new();
+    let mut quote: Option<char> = None;
+    for c in msg.chars() {
+        match quote {
+            Some(q) => {
+                if c == q {
+                    quote = None;
+                }
+            }
+            None => {
+                if c == '\'' || c == '"' {
+                    quote = Some(c);
+                } else if c.is_ascii_digit() {
+                } else if c.is_whitespace() {
+                    if !out.ends_with(' ') {
+                        out.push(' ');
+                    }
+                } else {
+                    out.push(c);
+                }
+            }
+        }
+    }
+    out.trim().chars().take(60).collect()
+}
